@@ -169,6 +169,15 @@ def check(prop, tier, seed):
                  " (cached)" if r.get("cached") else "", "ok" if r["ok"] else "FAILED"))
         if not r["ok"]:
             infra.append("model checking of %s failed: %s" % (name, r.get("violated") or r.get("error", "")[-800:]))
+    sims = []
+    if tier == "thorough" and spec.get("pool", True):
+        # the unrestricted environment at larger constants cannot be enumerated: random simulation with every monitor folded in
+        for name in ("SIM_mix", "SIM_peer", "SIM_sparse"):
+            s = mc.run_simulate(name, 150, seed)
+            sims.append(s)
+            vlib.log("SIM %-11s states=%d traces=%d %.0fs %s" % (name, s["states_checked"], s["traces"], s["secs"], "ok" if s["ok"] else "FAILED"))
+            if not s["ok"]:
+                infra.append("simulation of %s failed: %s" % (name, s.get("violated") or s.get("error", "")[-800:]))
     wits = []
     for cfgname, inv in spec["wit"]:
         w = mc.witness(cfgname, inv)
@@ -243,6 +252,7 @@ def check(prop, tier, seed):
         "model_checking": [{"config": r["config"], "distinct": r["distinct"], "generated": r["generated"], "depth": r["depth"],
                             "secs": r["secs"], "ok": r["ok"], "fresh_run": not r.get("cached", False)} for r in mcs],
         "witnesses_reached": wits,
+        "simulation": [{k: s[k] for k in ("config", "states_checked", "traces", "secs", "ok")} for s in sims],
         "implementation_executions": nexec, "implementation_events": nevents,
         "profiles": sorted(pres["profiles"].keys()),
         "conformance_drift": drift[:20],
